@@ -206,7 +206,7 @@ class World:
                 if fname == "only2" and eng is not self.it2:
                     continue          # a function only the upstream engine of an it2 -> it transfer knows
                 eng.functions[fname] = self._make_udf(fname)
-        for fname in ("inc", "dbl"):
+        for fname in ("inc", "dbl", "itonly"):
             self.sql.functions[fname] = self._make_sql_udf(fname)
         # database
         self._raw = sqlite3.connect(":memory:", isolation_level=None)
@@ -220,6 +220,7 @@ class World:
         self._raw.set_progress_handler(self._progress, 25)
         self.processor = SimProcessor(self)
         self.leaves = {}       # lid -> dict(info)
+        self.leaf_by_obj = {}  # id(LeafRelation) -> info (names may be shared by re-declared leaves)
         self.payload_tokens = {}
         self._keep = []
 
@@ -243,6 +244,8 @@ class World:
     def _make_sql_udf(fname):
         if fname == "inc":
             return lambda x: x + 1
+        if fname == "itonly":
+            return lambda x: x - 1
         return lambda x: x * 2
 
     # ----------------------------------------------------------------- db seam
@@ -314,11 +317,12 @@ class World:
             "unbounded": (0, None), "minonly": (n, None),
         }[variant]
 
-    def make_leaf(self, lid, engine, cols, rows, variant="exact", payload_kind="simrows", special=None):
-        """Build a leaf relation through the public API. rows: list of lists."""
+    def make_leaf(self, lid, engine, cols, rows, variant="exact", payload_kind="simrows", special=None, name=None):
+        """Build a leaf relation through the public API. rows: list of lists.  `name` lets a leaf be re-declared:
+        a second, distinct leaf with the same engine, columns and name (hence == and equal hash) but its own rows."""
         tags = [self.tags[c] for c in cols]
         eng = self.engines[engine]
-        name = f"L{lid}"
+        name = name or f"L{lid}"
         info = {"lid": lid, "engine": engine, "cols": list(cols), "rows": [list(r) for r in rows], "payload": None}
         if special == "doomed":
             rel = eng.make_doomed_relation(set(tags), [f"doomed {name}"], name=name)
@@ -349,6 +353,11 @@ class World:
             info["trows"] = trows
         info["rel"] = rel
         self.leaves[lid] = info
+        inner = rel
+        while not isinstance(inner, LeafRelation):
+            inner = inner.target
+        self.leaf_by_obj[id(inner)] = info
+        self._keep.append(inner)
         return rel
 
     def leaf_content_hash(self, lid):
